@@ -1,6 +1,7 @@
 package verifrepro
 
 import (
+	"strings"
 	"testing"
 
 	sqle "github.com/dolthub/go-mysql-server"
@@ -70,5 +71,79 @@ func TestC41WithAdminOptionSurvivesReload(t *testing.T) {
 	t.Logf("GRANT r1 TO u2 as u1: original engine err=%v, reloaded engine err=%v", err1, err2)
 	if (err1 == nil) != (err2 == nil) {
 		t.Errorf("allow/deny decision changed by reload: before err=%v, after err=%v", err1, err2)
+	}
+}
+
+// ---- container coverage of the privilege-set tree (C41-P1c, C41-P4) ------------------------------------------
+
+func c41Grants(t *testing.T, e *sqle.Engine, ctx *sql.Context, user string) string {
+	rows := mustRun(t, e, ctx, "SHOW GRANTS FOR "+user)
+	var out []string
+	for _, r := range rows {
+		out = append(out, r[0].(string))
+	}
+	return strings.Join(out, " / ")
+}
+
+// C41-P1c PrivilegeSet.RemoveDatabase: after removing the requested database-level privileges it deletes the whole
+// database entry when `len(dbSet.privs) == 0`, without looking at the tables and routines stored underneath it. So
+// revoking one database-level privilege also revokes every table- and routine-level grant in that database.
+func TestC41RevokeDbPrivKeepsTableGrants(t *testing.T) {
+	e, mk := c41Engine(t)
+	e.Analyzer.Catalog.MySQLDb.SetPersister(&c41Persister{})
+	root := mk("root")
+	for _, q := range []string{
+		"CREATE TABLE t (a int primary key)",
+		"INSERT INTO t VALUES (1)",
+		"CREATE USER u1@localhost",
+		"GRANT SELECT ON mydb.t TO u1@localhost",
+		"GRANT INSERT ON mydb.* TO u1@localhost",
+	} {
+		mustRun(t, e, root, q)
+	}
+	before := c41Grants(t, e, root, "u1@localhost")
+	_, errBefore := run(t, e, mk("u1"), "SELECT * FROM mydb.t")
+	mustRun(t, e, root, "REVOKE INSERT ON mydb.* FROM u1@localhost")
+	after := c41Grants(t, e, root, "u1@localhost")
+	_, errAfter := run(t, e, mk("u1"), "SELECT * FROM mydb.t")
+	t.Logf("before: %s", before)
+	t.Logf("after REVOKE INSERT ON mydb.*: %s", after)
+	t.Logf("SELECT * FROM mydb.t as u1: before err=%v, after err=%v", errBefore, errAfter)
+	if !strings.Contains(after, "GRANT SELECT ON `mydb`.`t`") {
+		t.Errorf("the table-level grant disappeared with the revoke of a database-level privilege: %s", after)
+	}
+	if errBefore == nil && errAfter != nil {
+		t.Errorf("SELECT on the table flipped from allowed to denied: %v", errAfter)
+	}
+}
+
+// C41-P4 PrivilegeSet.RemoveRoutine: routine entries are stored under the lower-cased name (getUseableRoutine), the
+// cleanup after the last privilege is removed deletes with the name as given. For a routine whose name has an upper-case
+// letter the emptied entry stays, and SHOW GRANTS keeps printing a line for it; for a lower-case name it does not.
+func TestC41RevokeRoutineMixedCase(t *testing.T) {
+	e, mk := c41Engine(t)
+	e.Analyzer.Catalog.MySQLDb.SetPersister(&c41Persister{})
+	root := mk("root")
+	for _, q := range []string{
+		"CREATE PROCEDURE MyProc() SELECT 1",
+		"CREATE PROCEDURE lowerproc() SELECT 1",
+		"CREATE USER u1@localhost",
+		"GRANT SELECT ON mydb.* TO u1@localhost",
+		"GRANT EXECUTE ON PROCEDURE mydb.MyProc TO u1@localhost",
+		"GRANT EXECUTE ON PROCEDURE mydb.lowerproc TO u1@localhost",
+	} {
+		mustRun(t, e, root, q)
+	}
+	before := c41Grants(t, e, root, "u1@localhost")
+	mustRun(t, e, root, "REVOKE EXECUTE ON PROCEDURE mydb.lowerproc FROM u1@localhost")
+	mustRun(t, e, root, "REVOKE EXECUTE ON PROCEDURE mydb.MyProc FROM u1@localhost")
+	after := c41Grants(t, e, root, "u1@localhost")
+	t.Logf("before: %s", before)
+	t.Logf("after both revokes: %s", after)
+	if strings.Contains(after, "lowerproc") {
+		t.Errorf("control: a line for the lower-case routine is still shown: %s", after)
+	}
+	if strings.Contains(after, "MyProc") {
+		t.Errorf("a grant line for mydb.MyProc is still shown after its only privilege was revoked: %s", after)
 	}
 }
